@@ -506,9 +506,65 @@ def check_C07(tier, seed):
     return finish(rep)
 
 
+def check_C12(tier, seed):
+    rep = Report("C12", tier, seed)
+    rng = random.Random(seed)
+    quick = tier == "quick"
+    r = run_mc("MC_Consts.tla", "MC_Consts.cfg", workers=4)
+    rep.add_mc("MC_Consts", r, "override sets x assignments: map construction; key rule; required/optional")
+    rep.add_selftest("MC_Consts_mut(key by name for @id overrides)", run_mc("MC_Consts.tla", "MC_Consts_mut.cfg", workers=2, expect_violation=True))
+    shaders = F.override_shaders(rng, 120 if quick else 1500)
+    cases = [{"id": "ovr-%05d" % i, "family": "overrides", "S": S, "opts": F.opts(mv=("rust", "glam")[i % 2])} for i, S in enumerate(shaders)]
+    compiled_and_judge(rep, "C12", cases, "overrides", "shim", {"overrides", "entries"}, keep=["overrides"])
+    return finish(rep)
+
+
+def check_C15(tier, seed):
+    rep = Report("C15", tier, seed)
+    rng = random.Random(seed)
+    quick = tier == "quick"
+    shaders = F.const_shaders(rng, 40 if quick else 400)
+    cases = [{"id": "const-%04d" % i, "family": "constants", "S": S, "opts": F.opts(validate=("none", "all")[i % 2])} for i, S in enumerate(shaders)]
+    rep.level = "model_checking"
+    r = run_mc("MC_Consts.tla", "MC_Consts.cfg", workers=4)
+    rep.add_mc("MC_Consts", r, "exported set = named scalar constants; type table")
+    compiled_and_judge(rep, "C15", cases, "constants", "shim", {"consts"}, keep=["consts"])
+    return finish(rep)
+
+
+def check_C16(tier, seed):
+    rep = Report("C16", tier, seed)
+    rng = random.Random(seed)
+    quick = tier == "quick"
+    r = run_mc("MC_Source.tla", "MC_Source.cfg", workers=8, consts={"MaxLen": "3" if quick else "4"})
+    rep.add_mc("MC_Source", r, "Unescape(Escape(s)) = s for every class string; all strings exported")
+    rep.add_selftest("MC_Source_mut(escape forgets the quote)", run_mc("MC_Source.tla", "MC_Source_mut.cfg", workers=2, expect_violation=True))
+    rep.exhaustive = True
+    exported = r.cases if quick else r.cases[::4]
+    cases = []
+    for i, e in enumerate(exported):
+        text = F.class_string(e["classes"])
+        cases.append({"id": "src-%05d" % i, "family": "source-classes", "S": F.source_shader(text), "opts": F.opts(rustfmt=False)})
+        if i % 7 == 0:
+            # the include variant of the same source, with an include path drawn from the same universe
+            path = "shaders/" + F.class_string(e["classes"]).replace("\x00", "_").replace("/", "_") + ".wgsl"
+            cases.append({"id": "src-%05d-inc" % i, "family": "source-include", "S": F.source_shader(text), "opts": F.opts(include=path)})
+    # formatter on, and whole realistic shaders with CRLF line endings / BOM-free unicode
+    seeds = seed_sources(rng, 6, 6)
+    for i, (name, text) in enumerate(seeds):
+        for j, v in enumerate([text, text.replace("\n", "\r\n"), text.replace("\n", "\r\n", 3), "// caf\u00e9 \U0001F600 \"q\" \\n {x}\n" + text]):
+            cases.append({"id": "src-real-%03d-%d" % (i, j), "family": "source-real", "wgsl": v, "opts": F.opts(rustfmt=(j % 2 == 1))})
+            cases.append({"id": "src-real-%03d-%d-inc" % (i, j), "family": "source-real-include", "wgsl": v, "opts": F.opts(include="dir with space/sh\\ader\"%d.wgsl" % j)})
+    drive_and_judge(rep, "C16", cases, "static", ["source", "nosource_sha"])
+    # a sample goes through rustc: SOURCE evaluated by the compiler and handed to the (recording) device
+    sample = [c for c in cases if "include" not in c["opts"]][::(30 if quick else 8)]
+    compiled_and_judge(rep, "C16", sample, "compiled", "shim", {"source"}, keep=["source", "nosource_sha"])
+    return finish(rep)
+
+
 # Does the specification of the stage walk memoise callees per entry point? (the code does since the C20 fix)
 MEMO = True
 # Does the type closure return early on a type it has already inserted? (the code does since the C20 fix)
 EARLY = True
 
-CHECKS = {"C11": check_C11, "C03": check_C03, "C08": check_C08, "C20": check_C20, "C13": check_C13, "C09": check_C09, "C17": check_C17, "C18": check_C18, "C19": check_C19, "C06": check_C06, "C04": check_C04, "C14": check_C14, "C07": check_C07}
+CHECKS = {"C11": check_C11, "C03": check_C03, "C08": check_C08, "C20": check_C20, "C13": check_C13, "C09": check_C09, "C17": check_C17, "C18": check_C18, "C19": check_C19, "C06": check_C06, "C04": check_C04, "C14": check_C14, "C07": check_C07, "C12": check_C12, "C15": check_C15, "C16": check_C16}
